@@ -211,5 +211,6 @@ func (r *Recorder) Write() error {
 	if err != nil {
 		return err
 	}
-	return os.WriteFile(filepath.Join(dir, fmt.Sprintf("%s.%d.json", r.Property, Shard())), b, 0o644)
+	// VERIF_SHARD_ID numbers the processes of one run (legs × shards); VERIF_SHARD is the index within a leg.
+	return os.WriteFile(filepath.Join(dir, fmt.Sprintf("%s.%d.json", r.Property, EnvInt("VERIF_SHARD_ID", Shard()))), b, 0o644)
 }
